@@ -64,14 +64,48 @@ func ardop.writeCtrlFrame(isTCP, w, format, params) (err)
   call ardop.crc16Sum requires over-payload: streq(str($0), gPayload)
   call ardop.crc16Sum set gCRC := $r0
   call binary.Write requires crc-big-endian: !isTCP && unbox($2) == gCRC && typeis($1, "binary.bigEndian")
+  call fmt.Fprint set gFpErr := $r1
+  call binary.Write requires only-after-the-payload-was-written: gFpErr == nil
+  ensures payload-error-propagates: gFpErr != nil ==> err == gFpErr
 
+ghost var gFilled int
+ghost var gCrcReadErr error
+ghost var gFpErr error
+ghost var gCmdLen int
+ghost var gCrcSum int
+ghost var gCrcWire int
 func ardop.readFrameOfType(fType, reader, isTCP) (f, err)
   props C14
   requires reader: reader != nil
   allocbound 65537
   call ardop.crc16Sum requires serial-only: !isTCP
   call ardop.crc16Sum requires whole-frame: same($0, data)
-  loop 0 invariant read: 0 <= read && read <= length && length == len(data) && 2 <= length && length <= 65537
+  loop 0 invariant read: 0 <= read && read <= length && length == len(data) && 2 <= length && length <= 65537 && gFilled == read
+  # a data frame is read in full, in order and never past an error; a command frame up to its CR;
+  # on the serial interface both CRC bytes are read and the frame is delivered only if the CRC over
+  # the whole frame matches; the delivered command lacks the CR, the delivered data frame is the
+  # 3-byte type and the payload behind it
+  call bufio.(*Reader).ReadBytes requires command-up-to-cr: $1 == '\r'
+  call bufio.(*Reader).ReadBytes set gCmdLen := len($r0)
+  call bufio.(*Reader).Read#0 requires fills-the-frame-in-order: read == gFilled && len($1) == length - read && len($1) > 0
+  call bufio.(*Reader).Read#0 requires no-read-after-an-error: err == nil
+  # (a single Read may return one byte only: the CRC bytes must come through io.ReadFull)
+  call bufio.(*Reader).Read#1 requires crc-bytes-never-by-a-single-read: false
+  call bufio.(*Reader).Read#0 set gFilled := gFilled + $r0
+  call ardop.crc16Sum requires whole-data-frame-read: fType == 'c' || gFilled == len(data)
+  call ardop.crc16Sum set gCrcSum := $r0
+  call io.ReadFull requires both-crc-bytes: len($1) == 2 && !isTCP
+  call binary.(bigEndian).Uint16#1 set gCrcWire := $r0
+  at return#0 requires type-byte-error-reported: err != nil && $r1 == err
+  call ardop.readFrameOfType requires prefix-resolved-only-after-a-good-read: err == nil
+  call io.ReadFull set gCrcReadErr := $r1
+  at return#7 requires crc-read-error-reported: gCrcReadErr != nil && $r1 == gCrcReadErr
+  call binary.(bigEndian).Uint16#1 requires crc-bytes-read-in-full: gCrcReadErr == nil
+  at return#3 requires read-error-reported: err != nil && $r1 == err
+  at return#4 requires too-short-for-a-type: len(data) < 5 && $r1 != nil
+  at return#8 requires mismatch-only-when-the-crc-differs: gCrcSum != gCrcWire && $r1 == ErrChecksumMismatch
+  at return#9 requires command-delivered-only-with-a-matching-crc: (isTCP || gCrcSum == gCrcWire) && $r1 == nil && typeis($r0, "cmdFrame") && len(unbox($r0)) == gCmdLen - 1
+  at return#10 requires data-delivered-only-with-a-matching-crc: (isTCP || gCrcSum == gCrcWire) && $r1 == nil && typeis($r0, "dFrame") && gFilled == len(data) && len(unbox($r0).data) == len(data) - 5 && len(unbox($r0).dataType) == 3
 
 func ardop.(*tncConn).Read(conn, p) (n, err)
   props C14
@@ -123,6 +157,8 @@ ghost var gFrameNo int
 ghost var gIsARQ bool
 ghost var gConnAtFrame bool
 ghost var gHandedAt int
+ghost var gPttVal bool
+ghost var gNewState int
 
 func ardop.(*TNC).runControlLoop$1() ()
   props C14
@@ -135,6 +171,18 @@ func ardop.(*TNC).runControlLoop$1() ()
   call ardop.(dFrame).ARQFrame set gConnAtFrame := tnc.connected
   at select#1 set gHandedAt := gFrameNo
   loop 0 invariant arq-data-not-dropped-while-connected: gIsARQ && gConnAtFrame ==> gHandedAt == gFrameNo
+  # commands: only command frames are parsed; a PTT request goes to the controller (when there is
+  # one) with the requested value; the link is marked down only by DISCONNECTED or a NEWSTATE
+  # DISC report; a station is recorded as heard only from a well-formed ID frame
+  call ardop.(cmdFrame).Parsed requires only-command-frames: ok
+  call ardop.(ctrlMsg).Bool set gPttVal := $r0
+  call transport.PTTController.SetPTT requires ptt-request-forwarded: msg.cmd == cmdPTT && tnc.ptt != nil && $1 == gPttVal
+  call ardop.(*TNC).eof#0 requires on-disconnected: msg.cmd == cmdDisconnected
+  call ardop.(ctrlMsg).State#1 set gNewState := $r0
+  call ardop.(*TNC).eof#1 requires on-newstate-disconnected: msg.cmd == cmdNewState && gNewState == Disconnected
+  call ardop.(*tncConn).updateBuffer requires buffer-report: msg.cmd == cmdBuffer
+  at mapupdate requires heard-only-from-a-well-formed-id-frame: err == nil
+  call ardop.(*broadcaster).Send requires every-command-is-broadcast: same($1.cmd, msg.cmd)
 
 func ardop.(*tncConn).Write(conn, p) (n, err)
   props C14
@@ -204,5 +252,31 @@ func ardop.(*tncConn).Flush(conn) (err)
   at return#0 requires flushed: gFlushSel == 0
   at return#1 requires link-down-is-eof: gFlushSel == 1 && $r0 == io.EOF
 ghost var gFlushSel int
+
+
+func ardop.(dFrame).ARQFrame(f) (r)
+  props C14
+  ensures def: r <==> streq(f.dataType, "ARQ")
+func ardop.(dFrame).FECFrame(f) (r)
+  props C14
+  ensures def: r <==> streq(f.dataType, "FEC")
+func ardop.(dFrame).ErrFrame(f) (r)
+  props C14
+  ensures def: r <==> streq(f.dataType, "ERR")
+func ardop.(dFrame).IDFrame(f) (r)
+  props C14
+  ensures def: r <==> streq(f.dataType, "IDF")
+
+
+# the end of a connection: pending reads and writes see EOF, the link is marked down and a fresh
+# inbound queue is installed; nothing happens without a connection
+func ardop.(*TNC).eof(tnc) ()
+  props C14
+  requires tnc: tnc != nil
+  at close requires closes-the-inbound-queue-of-a-live-connection: old(tnc.data) != nil && $0 == old(tnc.dataIn)
+  call ardop.(*tncConn).signalClosed requires the-live-connection: $0 == old(tnc.data) && $0 != nil
+  ensures link-down: old(tnc.data) != nil ==> !tnc.connected && tnc.data == nil
+  ensures fresh-inbound-queue: old(tnc.data) != nil ==> tnc.dataIn != nil
+  ensures untouched-without-a-connection: old(tnc.data) == nil ==> tnc.connected == old(tnc.connected) && tnc.dataIn == old(tnc.dataIn)
 
 @*/
